@@ -4,6 +4,7 @@
 SPECIFICATION Spec
 CONSTANTS
   Modes = {"tcp", "udp", "dec"}
+  LogLevels = {"info", "debug"}
   MaxPkts = 3
   ValidateKnown = TRUE
   TcpDests <- McTcpDests
